@@ -3,6 +3,7 @@
 //! a behaviour) into recorded ndjson traces of the real code, or generates scripts.
 mod cycle;
 mod dbgwrite;
+mod dbgep;
 mod dap;
 mod debug;
 mod det;
@@ -48,6 +49,7 @@ fn main() {
         "projreg-run" => projreg::run(rest),
         "retainmgr-run" => retain::mgr_run(rest),
         "resfault-run" => resfault::run(rest),
+        "dbgep-run" => dbgep::run(rest),
         "restartloop-run" => restartloop::run(rest),
         "stfeat" => stfeat::run(rest),
         "stfeat-child" => stfeat::child(rest),
